@@ -197,6 +197,19 @@ claim('C12',
       'DESIGN.md section 4 C12')
 
 
+claim('C11',
+      'RefMarkers.tla states the marker decision in exact rationals (penetrance, fold change, floors, strict '
+      'corner), Holm step-down on interval atoms, direction, gene list, cell-count guard; TLC proves the '
+      'restricted Holm correction of the code takes the same decisions as the full procedure and that Holm is '
+      'monotone; every (pair, gene) decision of files written by the real stage - direct and p-value-mask route '
+      '- for random references is validated by RefMarkers_Trace (soundness, completeness, direction, exact mode), '
+      'plus transposes, pair-swap symmetry, independence of worker count and memory budget.',
+      'Trusted: TLC, scipy.stats.ttest_ind_from_stats for the Welch p-value atoms. Decisions on a threshold / '
+      'with undefined statistic are not asserted. Defects F5, F14, F15 were repaired.',
+      'TLA+ decision model + trace validation of written marker files with interval atoms',
+      'DESIGN.md section 4 C11')
+
+
 def build():
     props = [json.loads(l) for l in open(ROOT / 'properties.jsonl')]
     checks = []
